@@ -339,7 +339,8 @@ class EquationSolver(object):
         # was unhappy if they were not set.
         had_evaluation_errors = False
         last_error = False
-        while relative_error > err_toler:
+        # Written so that a NaN error (iterates overflowed to inf/NaN) does not end the loop as if converged.
+        while not (relative_error <= err_toler):
             if is_trace_step:
                 #Logger('\t'.join([str(num_tries), str(relative_error)] + [str(initial[x]) for x in trace_keys]),
                 #       log='step')
@@ -422,6 +423,8 @@ class EquationSolver(object):
                 assert (len(self.TimeSeries[var]) == step)
                 try:
                     val = eval(eqn, globals(), initial)
+                    if isinstance(val, float) and (val != val or abs(val) == float('inf')):
+                        raise ValueError('Non-finite value for decorative variable {0}'.format(var))
                     initial[var] = val
                     self.TimeSeries[var].append(val)
                 except NameError:
